@@ -67,6 +67,9 @@ CHECKS = {
     'C19': (MC, 'stateless exhaustive exploration of result-delivery and log-queue-delivery schedules of the real ProcessRunner over a virtual multiprocessing layer',
             'Real fork and spawn ProcessRunner + ProcessExecutor + coordinator over virtual processes whose queue puts, exit-time flushes and exits are committed lazily under explorer control: every schedule of which child has progressed how far at every parent-side observation, for 2 tasks (independent and chained; thorough: 3 tasks) x every pair of print/flush/logger/stderr emit patterns x max_workers {1,2}. When run_tasks returns each emitted fragment must have been received exactly once by a handler on labtech.logger.',
             'Trusted: the virtual layer models multiprocessing at the granularity of labtech\'s observations (validated against real fork/spawn runs by the real-backend checks); per-drain reduction of log-queue delivery order is exact for a count oracle.', 'E1+E3', '5/C19'),
+    'C16': (EX, 'exhaustive enumeration of a finite configuration space (DAG x context filter x backend) with context recorded inside run(), virtual-OS start-method ground truth and real-process runs',
+            'Context: inside run() self.context equals filter_context(lab.context) for every DAG shape n<=3 x identity/per-parameter filters x 3 contexts x cold/pre-cached, on the coordinator seam, the real SerialRunner and the real fork/spawn ProcessRunner over the virtual OS; keys and every stored byte are identical under two different contexts (fixed clock) and a sentinel context value occurs in no stored file. Process model: the start method requested for every virtual worker, and real serial/fork/spawn runs x max_workers x DAG reporting pid, parent pid, thread, start method and a parent-mutated module global from inside run().',
+            'The process model is observable only on real processes: an enumerated finite list of real runs.', 'E2+E3+E4', '5/C16'),
 }
 
 PENDING = {
